@@ -9,7 +9,8 @@ EXPLANATION = (
     "reset to the epoch on every path (one non-exceeding sample re-arms); on its true edge the start "
     "time is written only while it is the epoch and only with 'now' (steady clock); CONTINUE is "
     "dominated by the window condition and by floor(seconds(now - start)) >= duration, every other "
-    "return is STOP; pressure_rising_beyond additionally requires the 10 s value above threshold and "
+    "return is STOP, and every return has either passed the window condition of this tick or reset "
+    "the start time itself (no tick leaves a stale start time behind); pressure_rising_beyond additionally requires the 10 s value above threshold and "
     "not below last*fast_fall_ratio, and records the last sample on every exit; memory_reclaim stamps "
     "'now' exactly when pgscan grew, continues iff the age is <= duration and records pgscan on every "
     "exit; swap_free / exists / nr_dying_descendants return CONTINUE exactly under their documented "
@@ -60,6 +61,19 @@ def window_rules(ctx, f, watched, thr="this->threshold_", who=""):
                 bad.append(f.loc(node) if node is not None else kind)
     ctx.check(bool(resets) and not bad, who + ":one-low-sample-rearms", "must_follow", f.loc(resets[0]) if resets else f.loc(),
               "a single non-exceeding sample resets the duration clock on every path", "a non-exceeding sample can leave the start time armed (%s)" % ", ".join(sorted(set(bad))) if resets else "no reset of hit_thres_at_ at all")
+    # every exit has classified this tick's sample: it passed the window condition (either way) or reset the clock itself
+    ev2 = {w: [("set", "classified")] for w in resets}
+    fc = Flow(P, f, events=ev2, cg=cg, edge_tokens=lambda k, p: ["classified"] if k == key else None)
+    bad = []
+    for kind, node, b, parts in fc.exits():
+        if kind not in ("return", "fallthrough"):
+            continue
+        if not all("classified" in st.must for st in parts.values()):
+            bad.append(f.loc(node) if node is not None else kind)
+    ctx.check(not bad, who + ":every-tick-classifies-the-sample", "must_pass_through", bad[0] if bad else f.loc(),
+              "every return has compared this tick's value with the threshold (or reset the clock): no tick leaves a stale start time behind",
+              "run() can return at %s without comparing the watched value with the threshold and without resetting hit_thres_at_: a tick without "
+              "an exceeding sample does not restart the duration clock" % ", ".join(sorted(set(bad))))
     # now / diff
     init, v = local_init(f, "now")
     ctx.check(v is not None and f.text(init) == "std::chrono::steady_clock::now()", who + ":now-is-steady-clock", "value-shape", f.loc(), "now = steady_clock::now()", "now = " + (f.text(init) if v else "?"))
